@@ -80,7 +80,7 @@ def h_handshake(eng, params):
                 # a CONNACK outside the handshake has no effect
                 eng.check(not [e for e in w.events[mark:] if e.kind in ('fire', 'write', 'abort', 'lose')], 'stray-connack-effect')
         elif kind == 'advance':
-            dt = eng.real('dt', 0, 100000 if ka == 'sym' else 1000)
+            dt = eng.real('dt', 0, 100000 if ka == 'sym' else (100 if ka and ka < 60 else 1000))
             w.advance(dt)
             if expect is None and w.now() >= deadline:
                 expect = ('timeout',)
@@ -191,7 +191,7 @@ def shards(tier):
             for first in KINDS:
                 if first == 'publish' and profile == 'subscriber':
                     continue
-                for ka in (('sym', 0, 1, 5, 65535) if T else ('sym', 0, 5)):
+                for ka in (('sym', 0, 5, 65535) if T else ('sym', 0, 5)):
                     out.append(('handshake', {'profile': profile, 'version': version, 'k': 5 if T else 3, 'first': first, 'keepalive': ka}))
     return out
 
@@ -199,11 +199,11 @@ def shards(tier):
 META = {
     'rule': 'history = connect(keepalive, clean symbolic) followed by k free steps; one path per feasible combination of step kinds and of the '
             'branch classes of their symbolic data (return code, session byte, elapsed time vs. deadline); non-trivial = counters accepted, refused, timeout, losses, rejected second connect',
-    'bounds': {'quick': 'profiles x versions; keepalive symbolic 1..65535 (refused / timed-out / lost handshakes) and 0, 5 (all outcomes), clean flag, CONNACK session byte 0..255 and return code 0..255, advance symbolic in 0..100000 s (0..1000 s when the keepalive loop can run); '
+    'bounds': {'quick': 'profiles x versions; keepalive symbolic 1..65535 (refused / timed-out / lost handshakes) and 0, 5 (all outcomes), clean flag, CONNACK session byte 0..255 and return code 0..255, advance symbolic in 0..100000 s (0..100 s when the keepalive loop can run with a period of 5 s, 0..1000 s otherwise); '
                         'k=3 free steps from {CONNACK, advance, loss (clean/unclean), second connect(), QoS1 publish, subscribe, disconnect()}; then keepalive+11 s and 1000 s',
                'thorough': 'k=5'},
     'stubs': ['fake transport with asynchronous loss', 'twisted task.Clock (exact reals)', 'jitter symbolic in [0,1)'],
-    'outside': ['accepted handshakes with keepalive other than 0, 5 (thorough: 0, 1, 5, 65535)', 'jitter other than a fixed sequence', 'histories longer than k free steps', 'connect() on a protocol object whose connection is already lost', 'float rounding of time'],
+    'outside': ['accepted handshakes with keepalive other than 0, 5 (thorough: 0, 5, 65535)', 'jitter other than a fixed sequence', 'histories longer than k free steps', 'connect() on a protocol object whose connection is already lost', 'float rounding of time'],
     'assumptions': ['after a refusing CONNACK the broker closes the connection before any further API call [MQTT-3.2.2-5]',
                     'no bytes are delivered after the client aborted or the loss was reported'],
 }
